@@ -30,7 +30,8 @@ if git apply --check $OUT/patch.diff 2>/dev/null; then
     if cargo test --offline $FEAT --test demo_test > /tmp/seed_$ID.without.log 2>&1; then demo_without=pass; else demo_without=fail; fi
     rm -f tests/demo_test.rs
   else
-    # demo.sh: run from the repository root, exits non-zero on violation
+    # demo.sh: run from the repository root, exits non-zero on violation (scripts use target/debug/...)
+    [ -e target ] || ln -sfn $CARGO_TARGET_DIR target
     if bash $OUT/demo.sh > /tmp/seed_$ID.with.log 2>&1; then demo_with=pass; else demo_with=fail; fi
     git apply -R $OUT/patch.diff
     if bash $OUT/demo.sh > /tmp/seed_$ID.without.log 2>&1; then demo_without=pass; else demo_without=fail; fi
